@@ -478,6 +478,9 @@ func EVAL(ctx context.Context, ast MalType, env EnvType) (res MalType, e error) 
 			var tryDo, catchDo, finallyDo MalType // Lists
 			var catchBind MalType                 // Symbol
 
+			if (first(last) == "catch" && len(last.(List).Val) < 2) || (first(prelast) == "catch" && len(prelast.(List).Val) < 2) {
+				return nil, lisperror.NewLispError(errors.New("catch must have 2 arguments at least"), ast)
+			}
 			switch first(last) {
 			case "catch":
 				finallyDo = nil
@@ -611,7 +614,7 @@ func EVAL(ctx context.Context, ast MalType, env EnvType) (res MalType, e error) 
 }
 
 func first(list MalType) string {
-	if list != nil && Q[List](list) && Q[Symbol](list.(List).Val[0]) {
+	if list != nil && Q[List](list) && len(list.(List).Val) > 0 && Q[Symbol](list.(List).Val[0]) {
 		return list.(List).Val[0].(Symbol).Val
 	}
 	return ""
